@@ -43,3 +43,11 @@ claim("C16",
       "Histories of two or three documents on one instance (rules validator after Reset, CBE encoder, CBE decoder): earlier documents are templates cut at every event index or invalid, the last has a symbolic payload and symbolic limits; z3 shows verdict, forwarded events and output bytes equal those of a fresh instance.",
       "Outside: marshaler/unmarshaler sessions and type caches (reflection, sync.Map); the CTE encoder's column state is covered by C23's harness only indirectly. 'Same error' = same nil-ness.",
       "DESIGN.md §5 C16")
+claim("C26",
+      "Typed slices of 0..3 elements with every element bit symbolic through the public ce.*SliceAsBytes / ce.BytesTo*Slice helpers (the package's unsafe-based endianness probe is interpreted, not assumed); z3 shows both round trips are the identity, the byte layout is little-endian per element, and the bytes equal what the CBE encoder writes and the decoder returns.",
+      "Bounds: length 0..3 elements for the nine fixed-width kinds; float16 and UID helpers are not checked. Little-endian host (amd64) as on the replay machine.",
+      "DESIGN.md §5 C26")
+claim("C27",
+      "The first byte (all 256 values) and the version number (all 2^64 values for CBE, 1..3 symbolic decimal digits for CTE) are solver variables through the real choosers, the universal decoder, the CBE decoder and the CTE version listener; z3 shows both choosers pick CTE for 'c'/'C', CBE for 0x81, error otherwise and agree with each other, the universal decoder equals the CBE decoder on 4-byte symbolic documents, and both formats accept exactly the versions 0 and 1.",
+      "CTE lexer/parser not executed: the version listener is driven with a symbolic token text; cte/cbe.NewUnmarshaler replaced by zero-value constructors (reflection-built sessions). 'Every encoder writes version 0' is a constant (version.ConciseEncodingVersion) and is not re-proved.",
+      "DESIGN.md §5 C27")
